@@ -268,6 +268,27 @@ class Check:
                 raise Infra('driver build failed:\n' + out2[-3000:])
         return ok
 
+    def prove_also(self, props_module):
+        """a second property file (lean/SuppModel/Props/<props_module>.lean) whose theorems count for this property too:
+        built and audited the same way, each theorem one obligation"""
+        ok, out = lake_build(['SuppModel.Props.' + props_module])
+        ns, names = property_theorems(props_module)
+        if not ok:
+            self.oblige('lake build SuppModel.Props.' + props_module, False, out[-3000:])
+            return False
+        aok, axioms, problems, cmd = audit(props_module)
+        self.checker_cmd = (self.checker_cmd + ' ; ' if self.checker_cmd else '') + cmd
+        for n in names:
+            bad = [p for p in problems if (' ' + n + ' ') in (' ' + p + ' ')]
+            self.oblige('theorem %s (%s)' % (n, props_module), not bad, '; '.join(bad))
+        rest = [p for p in problems if not any((' ' + n + ' ') in (' ' + p + ' ') for n in names)]
+        self.oblige('axiom/forbidden-construct audit (%s)' % props_module, not rest, '; '.join(rest))
+        self.extra.setdefault('axioms', {}).update(axioms)
+        if self.tier == 'thorough':
+            cok, cout = leanchecker(['SuppModel.Props.' + props_module])
+            self.oblige('leanchecker re-check of SuppModel.Props.' + props_module, cok, '' if cok else cout)
+        return True
+
     # -- coverage
     def sample(self, s, limit=6):
         if len(self.cov['samples']) < limit:
